@@ -5,6 +5,7 @@ package verifsim
 import (
 	"fmt"
 	"sort"
+	"strings"
 	"testing"
 	"time"
 
@@ -29,7 +30,7 @@ import (
 func init() {
 	Register(&Check{
 		ID: "C18", World: "D/membership", Gen: genPeers, Run: runPeers,
-		OwnProbes: []string{"graceful_stop", "crash", "restart_new_instance_id", "unregister_overtaken_by_register", "pubsub_loss", "partition_healed", "awkward_identity"},
+		OwnProbes: []string{"entry_checked_in_second_half_of_lifetime", "graceful_stop", "crash", "restart_new_instance_id", "unregister_overtaken_by_register", "pubsub_loss", "partition_healed", "awkward_identity"},
 		Real:      []string{"internal/peer.RedisPubsubPeers (Start, Ready refresh loop, listen, stop, GetPeers, message codec)", "generics.MapWithTTL"},
 		Stub:      []string{"Redis pub/sub (SimPubSub: delay, reorder, loss, partition)", "clock (SimClock)", "config (MockConfig)", "node lifecycle (driver)"},
 	})
@@ -43,7 +44,7 @@ func genPeers(r *Rng, tier string, p *Plan) {
 		n = r.Range(1, 6)
 	}
 	p.N["nodes"] = int64(n)
-	p.N["delay_max_us"] = PickOf(r, int64(0), 1000, 200_000, 1_500_000)
+	p.N["delay_max_us"] = PickOf(r, int64(0), 1000, 200_000, 1_500_000, 4_000_000)
 	p.N["loss_pct"] = int64(PickOf(r, 0, 0, 10, 40))
 	if r.Bool(0.25) {
 		p.N["awkward"] = 1
@@ -121,11 +122,19 @@ func runPeers(t *testing.T, p *Plan) *Outcome {
 			validAddr[nodes[i].addr] = true
 		}
 		const site = "internal/peer.RedisPubsubPeers"
+		// lastReg[receiver][instance id] = when the receiver last processed a
+		// registration of that instance (an unregistration clears it)
+		type regRec struct {
+			at   time.Time
+			addr string
+		}
+		lastReg := map[string]map[string]regRec{}
 		start := func(nd *peerNode) {
 			if nd.running {
 				return
 			}
 			nd.inc++
+			delete(lastReg, fmt.Sprintf("n%d", nd.idx)) // a new process knows nothing
 			if nd.inc > 1 {
 				out.Probe("restart_new_instance_id")
 			}
@@ -161,6 +170,17 @@ func runPeers(t *testing.T, p *Plan) *Outcome {
 			nd.running = false
 		}
 		bus.OnDeliver = func(to, topic, msg string) {
+			if i := strings.LastIndex(msg, ","); i > 0 && len(msg) > 1 {
+				id, addr := msg[i+1:], msg[1:i]
+				if lastReg[to] == nil {
+					lastReg[to] = map[string]regRec{}
+				}
+				if msg[0] == 'R' {
+					lastReg[to][id] = regRec{time.Now(), addr}
+				} else if msg[0] == 'U' {
+					delete(lastReg[to], id)
+				}
+			}
 			// a register message arriving after its sender's unregister (or crash)
 			if len(msg) > 0 && msg[0] == 'R' {
 				for _, nd := range nodes {
@@ -190,6 +210,23 @@ func runPeers(t *testing.T, p *Plan) *Outcome {
 				for _, a := range got {
 					if !validAddr[a] {
 						out.Violate("C18", "corrupted_address", site+".peerCommand", "%s: node %d lists %q, which is no node's address (addresses: %v)", where, nd.idx, a, want)
+					}
+				}
+				// an entry lives for the peer entry timeout after the last processed
+				// registration: a peer whose registration this node processed less
+				// than PeerEntryTimeout ago (and has not unregistered since) is listed
+				inList := map[string]bool{}
+				for _, a := range got {
+					inList[a] = true
+				}
+				for id, r := range lastReg[fmt.Sprintf("n%d", nd.idx)] {
+					if age := time.Now().Sub(r.at); age < peer.PeerEntryTimeout && validAddr[r.addr] {
+						if age > peer.PeerEntryTimeout/2 {
+							out.Probe("entry_checked_in_second_half_of_lifetime")
+						}
+						if !inList[r.addr] {
+							out.Violate("C18", "peer_entry_expired_early", site, "%s: node %d processed a registration of %s (instance %s) %v ago, no unregistration since, PeerEntryTimeout is %v, but the address is not in its peer list %v", where, nd.idx, r.addr, id, age, peer.PeerEntryTimeout, got)
+						}
 					}
 				}
 				if converged {
@@ -233,6 +270,9 @@ func runPeers(t *testing.T, p *Plan) *Outcome {
 			if kind != "tick" {
 				snapshot("after "+ident, false)
 			}
+		}
+		for ts := int64(700_000); ts < last; ts += 700_000 {
+			drv.At(us(ts), "probe", fmt.Sprintf("probe/%d", ts), func() {})
 		}
 		drv.Run(us(last) + time.Microsecond)
 		// faults stop here
